@@ -367,12 +367,14 @@ func Accum(op uint8, a, f uint8) (na, nf, compare uint8) {
 		na = ^a
 		nf = f&(FS|FZ|FPV|FC) | FH | FN | xyFlags(na)
 	case 6:
+		// bits 5,3: Z80 chips differ (not compared). The model's own value is
+		// "from A", the behaviour zexall's silicon CRC was taken from.
 		na = a
-		nf = keep | FC
+		nf = keep | FC | xyFlags(a)
 		compare = 0xFF &^ (F5 | F3)
 	case 7:
 		na = a
-		nf = keep | b2f(f&FC != 0, FH) | b2f(f&FC == 0, FC)
+		nf = keep | b2f(f&FC != 0, FH) | b2f(f&FC == 0, FC) | xyFlags(a)
 		compare = 0xFF &^ (F5 | F3)
 	}
 	return
@@ -469,6 +471,13 @@ func (x *exec) run() {
 		set := v&(1<<in.Sub) != 0
 		s.F = s.F&FC | FH | b2f(!set, FZ|FPV) | b2f(set && in.Sub == 7, FS) | xyFlags(v)
 		if isMem(in.Src) {
+			// bits 5,3 come from the internal MEMPTR register on silicon: not
+			// compared. The model's own value: high byte of the effective
+			// address for (IX+d)/(IY+d) (= MEMPTR there), 0 for (HL).
+			s.F &^= F5 | F3
+			if in.Src != LMemHL {
+				s.F |= xyFlags(uint8(x.addr(in.Src) >> 8))
+			}
 			out.FCompare = 0xFF &^ (F5 | F3)
 		}
 	case KRes:
